@@ -46,7 +46,7 @@ def api_cases(draw):
     return {"layer": "api", "model": spec, "state_kw": subset(spec["state"]), "control_kw": subset(spec["control"]),
             "cov_kw": {k: abs(v) for k, v in subset(spec["state"]).items()},
             "reading_kw": {key: subset(list(r)) for key, r in spec["sensors"].items()},
-            "bogus": draw(N.ident())}
+            "bogus": draw(N.ident()), "near_miss": draw(st.sampled_from(["drop-last", "drop-first", "upper", "append", "middle"]))}
 
 
 def api_case(spec, ctx):
@@ -82,8 +82,16 @@ def api_case(spec, ctx):
             off = data - np.diag(np.diag(data))
             if np.any(off != 0):
                 ctx.fail("api:covariance-offdiagonal", f"{data}", spec)
-        bogus = spec["bogus"]
-        if bogus not in al:
+        # unknown names: an unrelated one and near misses of the real names (prefix / suffix / substring / other case)
+        candidates = [spec["bogus"]]
+        for nm in al:
+            variant = {"drop-last": nm[:-1], "drop-first": nm[1:], "upper": nm.swapcase(), "append": nm + "_",
+                       "middle": nm[1:-1]}[spec.get("near_miss", "drop-last")]
+            if variant and variant.isidentifier():
+                candidates.append(variant)
+        for bogus in candidates:
+            if bogus in al:
+                continue
             try:
                 cls(**{bogus: 1.0})
                 accepted = True
